@@ -66,6 +66,44 @@ def frag_on_unknown(t):
     return f"fragment FU on {cond} {{ f(x: $zz) g(req: $zz) }} " + head + "{ ...FU " + t[i + 1:]
 
 
+TYPE_SYSTEM_TAIL = ('type Extra { other(flag: String = "yes", n: Int = "no", l: [Int] = [1, "x"]): String } input ExtraIn { a: Int = "bad" b: Boolean = 1 } '
+                    'directive @dx(a: Int = 1.5) on FIELD extend type A { zz(k: Boolean = 1, e: In = {r: "r"}): Int }')
+
+
+def type_system_defs(t):
+    """type system definitions carrying default values (there is no input type at those positions for an executable
+    document's validation), after or in front of the operations"""
+    return t + " " + TYPE_SYSTEM_TAIL if len(t) % 3 else TYPE_SYSTEM_TAIL + " " + t
+
+
+def oneof_variable(t):
+    """a nullable variable of a OneOf input type, declared last, and a fragment in front of the operation that uses nullable
+    variables directly as argument values and inside a OneOf literal"""
+    i = t.find("{")
+    head = t[:i]
+    root = "Mutation" if head.lstrip().startswith("mutation") else "Query"
+    decl = "$pi: Int, $pk: Pick"
+    if "(" in head:
+        k = head.rindex(")")
+        head = head[:k] + ", " + decl + head[k:]
+    else:
+        head = head.rstrip() + "(" + decl + ") "
+    return f"fragment FP on {root} {{ pick(p: $pk) p2: pick(p: {{a: $pi}}) fpi: f(x: $pi) }} " + head + "{ ...FP " + t[i + 1:]
+
+
+_schema12 = None
+
+
+def schema12():
+    """gqlmini's schema plus a OneOf input type reachable from the roots"""
+    global _schema12
+    if _schema12 is None:
+        from graphql import extend_schema, parse
+        _schema12 = extend_schema(gqlmini.schema(), parse("input Pick @oneOf { a: Int b: String } extend type Query { pick(p: Pick): Int } "
+                                                          "extend type Mutation { pick(p: Pick): Int }"))
+    return _schema12
+
+
 def mutate_doc(text, rnd):
     ops = [
         lambda t: re.sub(r"\b(x|y|s|a|b)\b", "nope", t, count=1),                                  # unknown field
@@ -84,6 +122,7 @@ def mutate_doc(text, rnd):
         share_name, share_name,
         deep_introspection, deep_introspection,
         frag_on_unknown, frag_on_unknown,
+        type_system_defs, type_system_defs, oneof_variable, oneof_variable,
     ]
     for _ in range(rnd.choice([1, 1, 2])):
         t2 = rnd.choice(ops)(text)
@@ -111,7 +150,7 @@ def _chunk(jobs):
     from graphql import parse, validate, print_ast, print_schema, GraphQLError
     from graphql.utilities import strip_ignored_characters, ast_to_dict
     from graphql.validation import specified_rules
-    schema = gqlmini.schema()
+    schema = schema12()
     rules = list(specified_rules)
     out = []
     for sd, kind in jobs:
